@@ -7,4 +7,4 @@ META = {"text": 'TLC explores every interleaving of every generated lock/try_loc
 
 
 def run(ctx):
-    kernel_sync.run(ctx, "mutex", 150, 1500)
+    kernel_sync.run(ctx, "mutex", 150, 600)
